@@ -14,7 +14,7 @@ use crate::util::*;
 use std::collections::BTreeSet;
 use std::sync::atomic::{AtomicU64, AtomicUsize, Ordering::Relaxed};
 use std::sync::Barrier;
-use triomphe::{Arc, HeaderWithLength, OffsetArc, ThinArc, UniqueArc};
+use triomphe::{Arc, ArcUnion, ArcUnionBorrow, HeaderSlice, HeaderWithLength, OffsetArc, ThinArc, UniqueArc};
 
 // ---------------------------------------------------------------------------------------------
 // count-event sink (needs the cfg(triomphe_verif) hook in /repo)
@@ -594,6 +594,178 @@ fn spawn<T: Send + 'static>(f: impl FnOnce() -> T + Send + 'static) -> std::thre
             .spawn(f)
             .expect("spawn")
     })
+}
+
+// ---------------------------------------------------------------------------------------------
+// scenario: plaindrop [C02] -- payloads without drop glue (plain data, slices of it, str): every thread
+// reads the payload non-atomically through its own handle, clones and drops, and lets go; whoever is
+// last returns the block. A read that is not ordered before the deallocation is a data race (Miri,
+// TSan) / use-after-free (ASan); natively the quarantine poison shows up in the checksum.
+
+pub enum Plain {
+    Arr(Arc<[u64; 4]>),
+    Sl(Arc<[u64]>),
+    Str(Arc<str>),
+    Thin(ThinArc<u64, u64>),
+    Off(OffsetArc<[u64; 4]>),
+    Un(ArcUnion<u8, [u64; 4]>),
+    Hs(Arc<HeaderSlice<u32, [u16]>>),
+}
+pub const PLAIN_KINDS: usize = 7;
+
+impl Plain {
+    fn make(kind: usize) -> Plain {
+        let arr = [3u64, 5, 7, 11];
+        match kind % PLAIN_KINDS {
+            0 => Plain::Arr(Arc::new(arr)),
+            1 => Plain::Sl(Arc::from(&arr[..])),
+            2 => Plain::Str(Arc::from("plain \u{e9}t\u{e9}")),
+            3 => Plain::Thin(ThinArc::from_header_and_slice(13, &arr[..])),
+            4 => Plain::Off(Arc::into_raw_offset(Arc::new(arr))),
+            5 => Plain::Un(ArcUnion::from_second(Arc::new(arr))),
+            _ => Plain::Hs(Arc::from_header_and_slice(17u32, &[1u16, 2, 3][..])),
+        }
+    }
+    fn kind(&self) -> &'static str {
+        match self {
+            Plain::Arr(_) => "Arc<[u64;4]>",
+            Plain::Sl(_) => "Arc<[u64]>",
+            Plain::Str(_) => "Arc<str>",
+            Plain::Thin(_) => "ThinArc<u64,u64>",
+            Plain::Off(_) => "OffsetArc<[u64;4]>",
+            Plain::Un(_) => "ArcUnion<u8,[u64;4]> second",
+            Plain::Hs(_) => "Arc<HeaderSlice<u32,[u16]>>",
+        }
+    }
+    fn dup(&self) -> Plain {
+        match self {
+            Plain::Arr(a) => Plain::Arr(a.clone()),
+            Plain::Sl(a) => Plain::Sl(a.clone()),
+            Plain::Str(a) => Plain::Str(a.clone()),
+            Plain::Thin(a) => Plain::Thin(a.clone()),
+            Plain::Off(a) => Plain::Off(a.clone()),
+            Plain::Un(a) => Plain::Un(a.clone()),
+            Plain::Hs(a) => Plain::Hs(a.clone()),
+        }
+    }
+    /// plain (non-atomic) read of the whole payload
+    fn sum(&self) -> u64 {
+        match self {
+            Plain::Arr(a) => a.iter().sum(),
+            Plain::Sl(a) => a.iter().sum(),
+            Plain::Str(a) => a.bytes().map(|b| b as u64).sum(),
+            Plain::Thin(a) => a.header.header + a.slice.iter().sum::<u64>(),
+            Plain::Off(a) => a.iter().sum(),
+            Plain::Un(a) => match a.borrow() {
+                ArcUnionBorrow::Second(b) => b.iter().sum(),
+                ArcUnionBorrow::First(b) => *b as u64,
+            },
+            Plain::Hs(a) => a.header as u64 + a.slice.iter().map(|x| *x as u64).sum::<u64>(),
+        }
+    }
+}
+unsafe impl Send for Plain {}
+
+pub fn plaindrop(seed: u64, kind: usize, nthreads: usize, len: usize, st: &mut CStats) -> Result<(), (Viol, Vec<String>)> {
+    let mut rng = Rng::new(seed);
+    tk::set_thread_ix(0);
+    shadow::reset();
+    let root = shadow::tracked(|| Plain::make(kind));
+    let name = root.kind();
+    let expect = root.sum();
+    let _ = sink::take();
+    sink::arm(nthreads);
+    let prog = move |h: Plain, mut rng: Rng, tix: u8| -> Result<u64, String> {
+        let mut reads = 0u64;
+        let mut extra: Vec<Plain> = Vec::new();
+        for _ in 0..len {
+            match rng.below(6) {
+                0 | 1 => {
+                    let s = h.sum();
+                    reads += 1;
+                    if s != expect {
+                        return Err(format!("thread {} read checksum {} through its own {} handle, expected {}", tix, s, name, expect));
+                    }
+                }
+                2 if extra.len() < 3 => extra.push(h.dup()),
+                3 => {
+                    if let Some(x) = extra.pop() {
+                        let s = x.sum();
+                        reads += 1;
+                        drop(x);
+                        if s != expect {
+                            return Err(format!("thread {} read checksum {} through a clone, expected {}", tix, s, expect));
+                        }
+                    }
+                }
+                4 => std::thread::yield_now(),
+                _ => {}
+            }
+        }
+        // last look, then let go of everything
+        let s = h.sum();
+        reads += 1;
+        drop(extra);
+        drop(h);
+        sink::thread_done();
+        if s != expect {
+            return Err(format!("thread {} read checksum {} just before releasing its handle, expected {}", tix, s, expect));
+        }
+        Ok(reads)
+    };
+    let mut handles = Vec::new();
+    for t in 1..nthreads {
+        let h = shadow::tracked(|| root.dup());
+        let trng = Rng::new(seed ^ (t as u64 * 0x51ED));
+        let tix = t as u8;
+        handles.push(spawn(move || {
+            worker_prelude(tix, seed);
+            let r = shadow::tracked(|| prog(h, trng, tix));
+            let _ = sink::take();
+            r
+        }));
+    }
+    // the spawner lets go before joining, so the last owner is whoever comes last
+    let mrng = Rng::new(seed ^ 0xAAAA ^ rng.next());
+    let mut results = vec![shadow::tracked(|| prog(root, mrng, 0))];
+    for h in handles {
+        results.push(join_out(h, "C02", "plaindrop")?);
+    }
+    sink::disarm();
+    let _ = sink::take();
+    let touched = sink::AFTER_FREE.swap(0, Relaxed);
+    let fail = |oracle: &'static str, msg: String| {
+        Err((
+            Viol {
+                props: "C02,C01",
+                oracle,
+                msg: format!("[plaindrop {}] {}", name, msg),
+            },
+            vec![],
+        ))
+    };
+    if touched != 0 {
+        return fail("count-after-free", format!("a reference-count operation was performed at {:#x} after that block had been returned to the allocator", touched));
+    }
+    let mut reads = 0;
+    for r in results {
+        match r {
+            Ok(n) => reads += n,
+            Err(m) => return fail("live", m),
+        }
+    }
+    if shadow::active() {
+        if let Some(x) = shadow::take_findings().first() {
+            return fail("alloc", format!("allocator monitor: {:?}", x));
+        }
+        let lb = shadow::live_blocks();
+        if !lb.is_empty() {
+            return fail("alloc", format!("{} block(s) left behind after every thread released its handles: {:x?}", lb.len(), &lb[..lb.len().min(3)]));
+        }
+    }
+    st.counts.add("conc.payload_reads", reads);
+    st.counts.bump(&format!("conc.plaindrop.{}", name));
+    Ok(())
 }
 
 // ---------------------------------------------------------------------------------------------
